@@ -420,9 +420,9 @@ def main():
         # search further (DESIGN 2.4): more cases, other seeds
         found = None
         if coq["run_ok"] and ok_h and not replay:
-            for extra in range(1, 4):
+            for extra in range(1, 3):
                 obs2 = os.path.join(wd, "obs_search.jsonl")
-                run_harness(cfg, pid, out_bin, seed + 1000 * extra, n * 5, tier, obs2, os.path.join(wd, "tmp"), log)
+                run_harness(cfg, pid, out_bin, seed + 1000 * extra, n * 3, tier, obs2, os.path.join(wd, "tmp"), log)
                 c2 = [c for c in load_cases(obs2) if not c.get("inconclusive")]
                 if not c2:
                     continue
